@@ -50,8 +50,8 @@ Proof. exact dry_writes_no_results. Qed.
 Print Assumptions C20_dry_writes_no_results.
 
 (* a migration never changes or removes what the target already holds; a repeated migration finds every
-   key location occupied and copies nothing (partial: the composition of the two facts over the whole loop
-   needs path-disjointness side conditions and is checked by the repeated migrations of the correspondence) *)
+   key location occupied and copies nothing (the single step here; the composition over the whole loop is
+   C20_second_migration_changes_nothing below, under one explicit side condition on the source names) *)
 Theorem C20_target_entries_kept : forall dry ts src dst p e,
   dget p dst = Some e -> dget p (snd (migrate dry src dst ts)) = Some e.
 Proof. exact target_entries_kept. Qed.
